@@ -470,7 +470,7 @@ def loop_carried_flags(fnode):
     for L in [x for x in ast.walk(fnode) if isinstance(x, (ast.For, ast.While))]:
         inner = [m for s_ in L.body for m in ast.walk(s_) if isinstance(m, (ast.For, ast.While))]
         for M in inner:
-            tested = set()
+            tested, sentinels = set(), set()
             for n in ast.walk(M):
                 if isinstance(n, ast.If):
                     t = n.test
@@ -478,8 +478,15 @@ def loop_carried_flags(fnode):
                         t = t.operand
                     if isinstance(t, ast.Name):
                         tested.add(t.id)
-            for v in tested:
-                sets_in_M = [n for n in ast.walk(M) if const_assign(n, v)]
+                    # sentinel form of the same flag: `if keep is None:` ... `keep = build(...)`
+                    if isinstance(t, ast.Compare) and len(t.ops) == 1 and isinstance(t.ops[0], (ast.Is, ast.IsNot)) \
+                            and isinstance(t.left, ast.Name) and isinstance(t.comparators[0], ast.Constant) \
+                            and t.comparators[0].value is None:
+                        sentinels.add(t.left.id)
+            for v in sorted(tested | sentinels):
+                sets_in_M = [n for n in ast.walk(M) if const_assign(n, v) or (
+                    v in sentinels and isinstance(n, ast.Assign) and len(n.targets) == 1
+                    and isinstance(n.targets[0], ast.Name) and n.targets[0].id == v)]
                 if not sets_in_M:
                     continue
                 # initialised (anywhere) in L's body outside M?
